@@ -984,6 +984,8 @@ class Evaluator:
                         return None
                 return ite(c, x, y)
             return None
+        if isinstance(a, V) and isinstance(b, V) and a == b:
+            return ("return", a)      # both arms return the same value (`if r.ndim == 0: return r.item()` / `return r`): no decision is needed
         if not (isinstance(a, Tup) and isinstance(b, Tup)) and not (getattr(self, "merge_scalar_returns", False) and self.depth > 1):
             # only the extracted form of the merged tuple rebinding `if c: x, y = e1, e2` is summarised; scalar selections keep
             # their paths (rules read them path by path)
@@ -1873,8 +1875,8 @@ class Evaluator:
             if isinstance(a, Const) and isinstance(b, Const):
                 r = a.value is b.value or (a == b)
             elif isinstance(b, Const) and b.value is None:
-                if isinstance(a, (Obj, Lst, Dct, FuncV, ClassV, Tup, EnumM, Num, LambdaV)) or (isinstance(a, App)) :
-                    r = False
+                if isinstance(a, (Obj, Lst, Dct, FuncV, ClassV, Tup, EnumM, Num, LambdaV, ExtV, BoundExt, ModV, PartialV)) or (isinstance(a, App)) :
+                    r = False     # functions, classes, modules and library objects are not None
                 elif isinstance(a, Sym) and "notnone" in a.tags:
                     r = False
                 else:
